@@ -200,6 +200,8 @@ class Interp3(Interp2):
             return SStr(self.w.funcs["stripWs"](s.t))
         if meth == "lower" and not pos:
             return SStr(self.w.funcs["lowerStr"](s.t))
+        if meth == "join" and len(pos) == 1 and isinstance(pos[0], SAdt) and pos[0].sort == "CssVal" and self.implied(self.is_c("CssList", pos[0].t)):
+            pos = [SAdt("StrList", self.acc("CssList", "items", pos[0].t))]
         if meth == "join" and len(pos) == 1 and isinstance(pos[0], SAdt) and pos[0].sort == "StrList":
             sep = z3.simplify(s.t)
             if z3.is_string_value(sep) and sep.as_string() == " ":
@@ -347,6 +349,8 @@ class Interp3(Interp2):
                 return SAdt("ChildList", self.acc("CSeq", "items", v.t), fresh=True, pyclass="list")
             # list(str) splits into characters, list(other iterable) is unknown: an arbitrary list
             return SAdt("ChildList", self.fresh("ChildList", "list_of_iterable"), fresh=True, pyclass="list")
+        if name == "dict" and len(pos) == 1 and not kw and isinstance(pos[0], SAdt) and pos[0].sort == "AttrList":
+            return SAdt("AttrList", pos[0].t, fresh=True, pyclass="dict")      # dict(mapping): a plain-dict copy with the same items
         if name == "type" and len(pos) == 1:
             v = pos[0]
             if isinstance(v, SAdt) and (v.pyclass or "").startswith("list"):
